@@ -259,8 +259,33 @@ func runC02(p *Program, r *Result) {
 					return a.Kind == "cmp" && a.Op == "==" && short(a.Y.String()) == "io.EOF" &&
 						strings.HasPrefix(short(a.X.String()), "invoke (io.Reader).Read(Field(Recv.src), ") && strings.HasSuffix(a.X.String(), ".1")
 				})
+				// the probe's byte count matters as well: io.Reader may return data together with
+				// io.EOF, and a byte delivered that way is trailing data all the same
+				isProbeCount := func(t *Term) bool {
+					s := short(t.String())
+					return strings.HasPrefix(s, "invoke (io.Reader).Read(Field(Recv.src), ") && strings.HasSuffix(s, ".0")
+				}
+				a3, ok3 := findFact(facts, func(a Atom) bool {
+					if a.Kind != "cmp" {
+						return false
+					}
+					x, y, op := a.X, a.Y, a.Op
+					if isProbeCount(y) {
+						x, y, op = y, x, swapOp[op]
+					}
+					if !isProbeCount(x) {
+						return false
+					}
+					c := short(y.String())
+					return (op == "==" && c == "0") || (op == "<=" && c == "0") || (op == "<" && c == "1")
+				})
 				if ok1 && ok2 {
 					r.OK(f.String(), "store:io.EOF", r.pos(pr.At), "", guardWitness(p, a1), guardWitness(p, a2))
+					if ok3 {
+						r.OK(f.String(), "store:io.EOF:count", r.pos(pr.At), "", guardWitness(p, a3))
+					} else {
+						r.Bad(f.String(), "store:io.EOF:count", r.pos(pr.At), "the clean-EOF state is entered without the probe's byte count being known to be zero: a source that returns a trailing byte together with io.EOF ends the stream cleanly; facts: "+short(factStrings(facts)))
+					}
 				} else {
 					r.Bad(f.String(), "store:io.EOF", r.pos(pr.At), "the clean-EOF state is entered on a path not dominated by last == true and by the probe read returning io.EOF; facts: "+short(factStrings(facts)))
 				}
